@@ -101,6 +101,14 @@ def build(rng, span_type, n, start, end, entry='solve', fault=None, lags=0, lead
         p, kind = fault
         scripts[str(p)] = faulty_script(rng, p, kind)
     c['scripts'] = scripts
+    c['opts'] = sc.random_omit(rng, c['opts'], 0.12)             # some calls leave keywords to their defaults
+    if rng.random() < 0.08 and n and entry not in ('iter_periods', 'iter_next'):
+        # an extra keyword argument that _evaluate uses: solve() / solve_period() must hand **kwargs down (and on to iter_periods)
+        q = rng.randrange(n)
+        a = scripts[str(q)]['passes'][0][0]
+        if a[0] == 'set':
+            c['kwargs'] = {'shift': lib.fhex(rng.choice([0.5, -1.0, 1e-11]))}
+            scripts[str(q)]['passes'][0][0] = ['setkw', a[1], a[2], 'shift']
     if rng.random() < 0.1 and n:
         q = rng.randrange(n)
         c['status'][q] = rng.choice(['.', 'F', 'E', 'S'])
@@ -164,6 +172,9 @@ def gen(rng, tier):
                     faults = [(rng.randrange(n), rng.choice(FAULTS)) for _ in range(8)]
                 for f in faults:
                     cases.append(build(rng, st, n, a, b, fault=f))
+            # next(iter_periods(...)): the iterator protocol of the returned object
+            if n:
+                cases.append(build(rng, st, n, rng.choice(sp), rng.choice(sp), entry='iter_next'))
             # solve_period for every label spec
             for a in sp[1:]:
                 cases.append(build(rng, st, n, a, None, entry='solve_period'))
@@ -198,6 +209,16 @@ def gen(rng, tier):
                             dict(errors='bogus')])
         cases.append(build(rng, st, n, rng.choice(sp), rng.choice(sp), fault=(rng.randrange(n), rng.choice(FAULTS)) if rng.random() < 0.5 else None,
                            **extra))
+    # keyword defaults of solve() / solve_period(): every keyword omitted in turn (and all of them) on scripts whose outcome depends on it
+    for omit in sc.default_probe_omissions():
+        for name, ps in sc.default_probe_scripts(1).items():
+            for entry in ('solve', 'solve_period'):
+                c = build(rng, rng.choice(['range', 'np_int', 'pd_str']), 3, ['pos', 1], ['pos', 2] if entry == 'solve' else None, entry=entry)
+                c['opts'] = sc.with_omitted({k: v for k, v in c['opts'].items() if k != 'omit'}, omit)
+                c.pop('kwargs', None)
+                c['vals'][0][1] = lib.fhex(1.0)
+                c['scripts'] = {'0': good_script(0), '1': ps, '2': good_script(2)}
+                cases.append(c)
     # histories on one instance: solver calls interleaved with copy(), reindex(same span), whole-series and cell assignments
     for _ in range(350 if quick else 5000):
         cases.append(sc.hist_case(rng))
@@ -276,13 +297,21 @@ def _oracle(case, obs):
         if cnt[i] != 1:
             continue
         got = obs['loc'].get(str(obs['ids'][i]))
-        if got != ['int', i]:
-            bad('locate|%s' % case['span_type'], 'the label of period %d of a %s span must resolve to the single position %d (a built-in int); '
+        if got is None or got[0] not in ('int', 'intlike') or got[1] != i:      # the statement fixes the position, not its Python type
+            bad('locate|%s' % case['span_type'], 'the label of period %d of a %s span must resolve to the single position %d; '
                 'the lookup gave %s' % (i, case['span_type'], i, got))
             break
-    if o['min_iter'] > o['max_iter'] and case['entry'] != 'iter_periods':
+    if o['min_iter'] > o['max_iter'] and case['entry'] not in ('iter_periods', 'iter_next'):
         if out[:2] != ['raise', 'ValueError'] or not unchanged:
             bad('min_iter>max_iter', 'min_iter > max_iter must raise ValueError before anything changes; got %s, unchanged=%s' % (out[:3], unchanged))
+        return fails
+    if case['entry'] == 'iter_next':
+        # next(iter_periods(start, end)): the first period of the range comes first
+        if exp[0] == 'range' and exp[1] <= exp[2]:
+            want = ['ret', [obs['ids'][exp[1]]], [exp[1]]]
+            if out[:3] != want:
+                bad('iter_periods|next-does-not-yield-first-pair', 'next(iter_periods(start=%r, end=%r)) on a %s span of %d periods must yield the first '
+                    '(position, label) pair (%d, label of period %d); got %s' % (case['start'], case['end'], case['span_type'], n, exp[1], exp[1], out[:3]))
         return fails
     if case['entry'] == 'iter_periods':
         # iter_periods(start, end): exactly one (position, label) pair per position from start to end inclusive, in span order;
@@ -296,13 +325,19 @@ def _oracle(case, obs):
             a, b = exp[1], exp[2]
             positions = list(range(a, b + 1))
             want = ['ret', [obs['ids'][q] for q in positions], positions]
-            if out[:3] != want or out[5] != len(positions) or any(x != 'int' for x in out[4]):
+            if out[:3] != want or out[5] != len(positions):
                 bad('iter_periods|pairs', 'iter_periods(start=%r, end=%r) on a %s span of %d periods (lags %d, leads %d) must yield the pairs of '
                     'positions %s with their labels and have that length; got %s' % (case['start'], case['end'], case['span_type'], n,
                                                                                    case.get('lags', 0), case.get('leads', 0), positions, out))
         return fails
+    if case.get('kwargs') and case['entry'] == 'solve':
+        for seen in obs.get('ipkw', []):
+            if any(k not in seen for k in case['kwargs']):
+                bad('kwargs|iter_periods', 'solve(..., %s) must pass its further keyword arguments on to iter_periods(); it received %s'
+                    % (sorted(case['kwargs']), seen))
+                break
     what_call = 'solve_period(%r)' % (case['start'],) if case['entry'] == 'solve_period' else 'solve(start=%r, end=%r)' % (case['start'], case['end'])
-    if exp[0] == 'keyerror' and case['entry'] != 'iter_periods':
+    if exp[0] == 'keyerror' and case['entry'] not in ('iter_periods', 'iter_next'):
         if out[:2] != ['raise', 'KeyError'] or not unchanged:
             bad('bad-label', '%s on a %s span: an unknown / non-single label must raise KeyError before anything is solved; got %s, unchanged=%s'
                 % (what_call, case['span_type'], out[:3], unchanged))
@@ -324,7 +359,7 @@ def _oracle(case, obs):
     positions = list(range(a, b + 1))
     if tw['out'][0] == 'ret':
         want = ['ret', [obs['ids'][q] for q in positions], positions, tw['out'][1]]
-        if out[:4] != want or (out[0] == 'ret' and any(x != 'int' for x in out[4])):
+        if out[:4] != want:
             bad('solve-vs-loop|%s' % ('labels' if out[:2] == ['raise', 'KeyError'] else 'result'),
                 '%s on a %s span of %d periods must visit exactly positions %s in order and return (labels, positions, flags) = what the loop of '
                 'solve_t gives %s; got %s' % (what_call, case['span_type'], n, positions, want[1:], out))
@@ -352,7 +387,7 @@ def _oracle(case, obs):
 def nontrivial(case, obs):
     if case.get('kind') == 'hist':
         return len(set(obs['status'])) >= 2 or any(o[0] == 'raise' for o in obs['outs'])
-    if view(case, obs)['entry'] == 'iter_periods':
+    if view(case, obs)['entry'] in ('iter_periods', 'iter_next'):
         return obs['out'][0] == 'raise' or len(obs['out'][1]) >= 2
     visited = {e[1] for e in obs['log']}
     return len(visited) >= 2 or obs['out'][0] == 'raise' or any(s in ('F', 'E', 'S') for s in obs['status'])
